@@ -6,16 +6,18 @@ import time
 
 from . import common as c
 
-SUPPORT = ["Mem/Mem.v", "Mem/Scan.v", "Mem/Routines.v"]
+SUPPORT = ["Mem/Mem.v", "Mem/Scan.v", "Mem/Routines.v", "Mem/Blocked.v"]
 
 CLAIM = {
-    "gens": [],
+    "gens": ["Tables"],
     "category": "proof",
     "text": "Theorems (Coq) over a read monad with an access log (memory = input ++ tail, page model): the generic theorem "
             "'a run that only touches indices < len(input) returns the same result and touches the same indices for every tail', and per routine of "
             "native/scanning.h / lspace.h / value.c written in that monad (lspace_1 with its 32-byte block loop, advance_ns, advance_dword WITH its size_t "
             "guard, the literal dispatch of value(), the vnumber/vinteger prefix with check_leading_zero, digit runs, the string body scan, optdec's padded "
-            "copy): R_reads_in_bounds and R_tail_independent. Two clauses are REFUTED on the pinned source with concrete witnesses: advance_dword reads 4 "
+            "copy) and the W-blocked finders (a monadic twin of b-c10's Simd/Blocked.cascade: lspace_1, memcchr_p32, memcchr_quote_unsafe in both SIMD builds, proved equal to "
+            "the pure cascade; a monadic twin of b-c20's memcchr_ws for quote/html_escape; the page-guarded over-reading vector load with the page argument): "
+            "R_reads_in_bounds and R_tail_independent. Two clauses are REFUTED on the pinned source with concrete witnesses: advance_dword reads 4 "
             "bytes across the end of inputs shorter than 4 bytes (and the verdict then depends on the tail), check_leading_zero reads the byte behind an "
             "input ending after a leading zero; the partial theorems carry the exact guards (len + dec >= 4; at most one byte beyond). The models are hand "
             "transcriptions of the C text - the blobs that run are tied by placing inputs flush against a PROT_NONE page: fault <=> the model predicts an "
